@@ -112,6 +112,55 @@ def loop_of(view, bb):
     return None
 
 
+def is_iteration_counter(view, local, next_bb, use_bb):
+    """`local` counts the completed iterations of the loop stepping at next_bb: initialised to 0 before the loop,
+    incremented by exactly 1 on every path through an iteration, after its use at use_bb."""
+    lp = None
+    for h, body in view.loops():
+        if next_bb in body:
+            lp = (h, body)
+    if lp is None:
+        return False
+    h, body = lp
+    defs = view.whole_defs(local)
+    outside = [d for d in defs if d[0] == "stmt" and d[1] not in body]
+    inside = [d for d in defs if d[0] == "stmt" and d[1] in body]
+    if len(outside) != 1 or len(inside) != 1 or len(defs) != 2:
+        return False
+    o = outside[0]
+    if not (view.dominates(o[1], h) and o[3]["rv"]["k"] == "use" and o[3]["rv"]["op"].get("int") == 0):
+        return False
+    inc = inside[0]
+    t = view.origin_rv(inc[3]["rv"], inc[1])
+    # i = (AddWithOverflow(i, 1)).0   or   i = Add(i, 1)
+    while t[0] == "field":
+        t = t[1]
+    if not (t[0] == "binop" and t[1] in ("Add", "AddWithOverflow") and t[2] == ("multi", local) and t[3] == ("const", "int", 1)):
+        return False
+    inc_bb = inc[1]
+    # on every path from the Some edge back to the header
+    from sites import follow_local_use
+    k, sbb, info, cur = follow_local_use(view, next_bb, view.blocks[next_bb]["term"]["dest"]["l"])
+    some_t = view.variant_target(info, "Some") if k == "switch" else None
+    if some_t is None:
+        return False
+    seen = set()
+    st = [some_t]
+    while st:
+        x = st.pop()
+        if x in seen or x == inc_bb or x not in body:
+            continue
+        seen.add(x)
+        if x == h:
+            return False
+        st.extend(view.succ[x])
+    # used before it is incremented in the same iteration
+    after_inc = view.reachable(inc_bb, barrier=[h])
+    if use_bb in after_inc and use_bb != inc_bb:
+        return False
+    return True
+
+
 def location_param(view):
     """term of the body's own location: ('param', 2) in a root, the captured upvar in a closure"""
     return ("param", 2)
@@ -177,6 +226,11 @@ def c04_rules(view, bs, root_loc_names=("location", "deserr_location__"), root_v
             okl = (locc[0] == "push_index" and is_own_location(view, locc[1], root_loc_names)
                    and _same_field(locc[2], want_ix))
             if part != "1" or not okl:
+                out.append(finding("C04.CHILD", view, "sequence element child is not located at push_index(own location, this element's index)", ch["bb"], fmt(locc)))
+        elif kind == "Sequence::Iter" and loop_of(view, nbb) is not None and locc[0] == "push_index" and locc[2][0] == "multi" \
+                and is_iteration_counter(view, locc[2][1], nbb, ch["bb"]):
+            # hand-written induction variable: `let mut i = 0; for x in seq { .. push_index(i) ..; i += 1 }`
+            if part != "item" or not is_own_location(view, locc[1], root_loc_names):
                 out.append(finding("C04.CHILD", view, "sequence element child is not located at push_index(own location, this element's index)", ch["bb"], fmt(locc)))
         elif kind == "Sequence::Iter":
             # un-enumerated: only sound for unrolled code, the k-th step gets constant k
